@@ -60,15 +60,23 @@ Tagged(b, ln) == LET RECURSIVE F(_, _)
                                   ELSE IF b[i] # <<>> THEN F(i + 1, Append(acc, <<ln + i, b[i]>>)) ELSE F(i + 1, acc)
                  IN F(1, <<>>)
 
-\* wrap here: the rest of the statement goes to a continuation line
+\* quote state after the first i characters of the statement text ("" outside a character literal)
+RECURSIVE QS(_)
+QS(i) == IF i = 0 THEN "" ELSE LET q == QS(i - 1) c == Txt[i] IN
+         IF q = "" THEN (IF c \in {"'", "\""} THEN c ELSE "") ELSE (IF c = q THEN "" ELSE q)
+
+\* wrap here: the rest of the statement goes to a continuation line; outside a character literal the line that is
+\* left may carry a trailing comment (with an odd quote in it)
 Break == /\ ~done /\ pos > 1 /\ pos <= Len(Txt) /\ nb < MaxBreaks
          /\ Txt[pos - 1] # " "                       \* class restriction: no significant blank at a line end
          /\ Txt[pos - 1] # "&"                       \* class restriction: a line ending in & is taken for free form by the detector
          /\ Len(cur) > 6
-         /\ \E c \in ContChars, b \in CmtLines :
-              /\ (b # <<>> => nx < MaxExtras) /\ nx' = IF b # <<>> THEN nx + 1 ELSE nx
-              /\ lines' = Append(lines, cur) \o b
-              /\ cmts' = cmts \o Tagged(b, CurLine)
+         /\ \E c \in ContChars, b \in CmtLines, tc \in { <<>>, <<"!", "i", "t", "'", "s">> } :
+              /\ (tc # <<>> => QS(pos - 1) = "")
+              /\ LET extras == (IF b # <<>> THEN 1 ELSE 0) + (IF tc # <<>> THEN 1 ELSE 0) IN
+                   /\ nx + extras <= MaxExtras /\ nx' = nx + extras
+              /\ lines' = Append(lines, cur \o tc) \o b
+              /\ cmts' = cmts \o (IF tc # <<>> THEN << <<CurLine, tc>> >> ELSE <<>>) \o Tagged(b, CurLine)
               /\ cur' = Pad(5) \o <<c>>
          /\ nb' = nb + 1
          /\ UNCHANGED <<si, pos, first, spans, done>>
